@@ -10,6 +10,7 @@ PROP = {
         {"name": "gstuff_cfg_bigcap", "quick": 6000, "thorough": 300000, "maxlen": 400},
         {"name": "gstuff_legacy_bigcap", "quick": 5000, "thorough": 200000, "maxlen": 400},
     ],
+    "uchar": ["gstuff_cfg", "gstuff_legacy"],
     "fuzz": [{"name": "gstuff_cfg", "secs": 60, "maxlen": 400}, {"name": "gstuff_legacy", "secs": 30, "maxlen": 400}],
 }
 
